@@ -20,6 +20,8 @@ WINDS = {
     'quarter': [[5, -45, None]],
     'calm_wind': [[0, 0, 100], [10, 90, None]],                       # a calm stretch is a segment too
     'wind_calm_wind': [[10, 90, 50], [0, 45, 120], [15, 270, None]],
+    # boundaries given in different length units whose NUMBERS order differently from the lengths: 200 yd = 182.9 m < 190 m
+    'mixed_units': [[10, 90, [190, 'Meter']], [15, 270, [200, 'Yard']], [5, 0, [1000, 'Foot']]],
 }
 
 
@@ -64,6 +66,8 @@ def make_winds(spec):
     for mph, deg, until in spec:
         if until is None:
             out.append(Wind(Unit.MPH(mph), Unit.Degree(deg)))
+        elif isinstance(until, (list, tuple)):
+            out.append(Wind(Unit.MPH(mph), Unit.Degree(deg), Unit[until[1]](until[0])))
         else:
             out.append(Wind(Unit.MPH(mph), Unit.Degree(deg), Unit.Yard(until)))
     return out
